@@ -48,11 +48,12 @@ def gen_graph(rng, n_files=None):
     files = []
     names_pool = ["p", "q", "r", "p", "s"]      # repeated names on purpose
     used = set()
+    pj = rng.choice([0.3, 0.3, 0.3, 1.0, 0.0])      # mostly mixed syntax; sometimes every file JSON, sometimes every file native
     for i in range(n):
         for _ in range(20):
             d = rng.choice(DIRS)
             nm = rng.choice(names_pool) + ("" if rng.random() < 0.6 else str(i))
-            ext = ".json" if rng.random() < 0.3 else ""
+            ext = ".json" if rng.random() < pj else ""
             rel = os.path.join(d, nm + ext) if d else nm + ext
             if rel not in used:
                 used.add(rel)
@@ -307,6 +308,8 @@ def impl_line(case, tmp: Path, includes=True, comments=True) -> str:
         r = dictIO.DictReader.read(tmp / case["files"][0]["rel"], includes=includes, comments=comments)
     except (ValueError, TypeError, IndexError, KeyError, RecursionError) as e:
         return f"raise {native.ERRCODE[type(e).__name__]}"
+    except Exception as e:  # noqa: BLE001  (e.g. OSError from an ever-growing include path)
+        return f"raise-other {type(e).__name__}"
     return "ok " + c07.enc_sdict_obj(r) + f" i{native.counter_value()}"
 
 
